@@ -116,6 +116,20 @@ def monitorRead (impl : Json) (mon : Bool → Content → Option String) : E (Op
     | none => pure ()
   return none
 
+/-- C07, the converse: an envelope the generator declares conformant (the independent encoder's own output, valid signature,
+    conforming chain; or that with another JSON-object payload) is accepted by both read operations
+    (`Props.C07_complete_jws / _cose` says the model accepts every conforming envelope) -/
+def conformantAccepted (prop : String) (j impl : Json) (v : Option String) : E (Option String) := do
+  if v.isSome || prop != "C07" then return v
+  match fldOpt j "declaredConformant" with
+  | some (.bool true) =>
+    let vok ← fldBool (← fld impl "verify") "ok"
+    let cok ← fldBool (← fld impl "content") "ok"
+    if !vok then return some "conforming_envelope_with_valid_signature_rejected_by_verify"
+    if !cok then return some "conforming_envelope_rejected_by_content"
+    return none
+  | _ => return none
+
 def specJson (v : Option String) : Json :=
   match v with
   | none => jobj [("ok", jbool true)]
@@ -136,6 +150,7 @@ def handleJwsRead (prop : String) (j impl : Json) : E Json := do
     | some t => t.2.2
     | none => m.decoded
   let verdict ← monitorRead impl (fun viaVerify c => EnvMonitor.jws prop e exactOf ci viaVerify c)
+  let verdict ← conformantAccepted prop j impl verdict
   pure (jobj [("model", jobj [("verify", outJson (wrapRead rawEmpty ci (Jws.verify e))),
                               ("content", outJson (wrapRead rawEmpty ci (Jws.content e)))]),
               ("spec", specJson verdict)])
@@ -181,6 +196,7 @@ def handleCoseRead (prop : String) (j impl : Json) : E Json := do
   let ci ← chainInfoOf (← fld j "chain")
   let rawEmpty ← fldBool j "rawEmpty"
   let verdict ← monitorRead impl (fun viaVerify c => EnvMonitor.cose prop e ci viaVerify c)
+  let verdict ← conformantAccepted prop j impl verdict
   pure (jobj [("model", jobj [("verify", outJson (wrapRead rawEmpty ci (Cose.verify e))),
                               ("content", outJson (wrapRead rawEmpty ci (Cose.content e)))]),
               ("spec", specJson verdict)])
